@@ -47,6 +47,24 @@ def c15Step (_ : Unit) (line : String) : Unit × String :=
         let γ ← flt; let x ← vec; let g ← vec
         let rr := (List.range x.length).map fun i => Gen.proxGradStepUnconstr γ (vget x i) (vget g i)
         pure s!"{fmtF 0.0} {fmtV (rr.map (·.2))} {fmtV (rr.map (·.1))}") r
+    | "cl1s" :: r => run (do
+        let lam ← flt; let γ ← flt; let v ← vec
+        let out := ofCVec (cplxL1ProxScalarW lam γ (toCVec v)).1
+        -- both overloads (prox customisation point on the real vector, complex overload)
+        pure s!"{fmtV out} {fmtV out}") r
+    | "cl1v" :: r => run (do
+        let lam ← vec; let γ ← flt; let v ← vec
+        let out := ofCVec (cplxL1ProxVectorW lam γ (toCVec v)).1
+        pure s!"{fmtV out} {fmtV out}") r
+    | "nucpost" :: r => run (do
+        -- the SVD (σ, U, V) is the oracle's answer as logged by the harness
+        let lam ← flt; let γ ← flt; let rows ← nat; let cols ← nat; let a ← vec
+        let σ ← vec; let U ← vec; let V ← vec
+        match nuclearPost lam γ σ with
+        | none => pure s!"Z {fmtF 0.0} {fmtV a}"
+        | some (sv, value, rank) =>
+          pure s!"S {fmtV sv} {fmtF value} {fmtV (nuclearReconstruct rows cols rank sv U V)}") r
+    | "echo" :: r => some (String.intercalate " " r)
     | _ => some "bad-op"
   ((), out.getD "parse-error")
 
